@@ -444,3 +444,118 @@ Example C18_ex_timeout_one_worker :
   parallel_function snd 2 3 (Some 2) s3 jobs = Err E_Runtime /\ parallel_function snd 2 1 None [] jobs = Ok [10; 11; 12] /\
   finding_K2 2 1 (Some 2) jobs = false.
 Proof. vm_compute. repeat split; reflexivity. Qed.
+
+(* ================================================================================================
+   pre_process_sequences, the identifier block (duplicate pass, fix_record_name_id loop, sanitise batch):
+   "records ... come back with the same content as if processed in-process" for id, name, original_id.
+   cn is the contig number function of _shorten_ids (C16.Model.contig_no for the code as it is); allow is
+   options.allow_long_headers; a record is (identifier part, body).
+   ================================================================================================ *)
+
+(* for every worker count, schedule, both allow_long_headers settings, every batch (ids colliding after any of the
+   rewriting rules included): a result with workers is the in-process result - ids, names, original ids, indices,
+   sanitised sequences, skip flags *)
+Theorem C18_preprocess_ids_workers_irrelevant : forall cn allow cfg sched recs out,
+  pp_ids cn allow cfg sched recs = Ok out -> pp_ids_inproc cn allow recs = Ok out.
+Proof. exact pp_ids_workers_irrelevant. Qed.
+Print Assumptions C18_preprocess_ids_workers_irrelevant.
+
+(* an error of the in-process run (generate_unique_id cannot fit 16 characters, a record without a name, an empty
+   sequence) is an error for every worker count *)
+Theorem C18_preprocess_ids_failure_surfaces : forall cn allow cfg sched recs e0,
+  pp_ids_inproc cn allow recs = Err e0 -> exists e, pp_ids cn allow cfg sched recs = Err e.
+Proof. exact pp_ids_failure_surfaces. Qed.
+Print Assumptions C18_preprocess_ids_failure_surfaces.
+
+(* one configured worker: the in-process run itself *)
+Theorem C18_preprocess_ids_cpus1 : forall cn allow sched recs,
+  pp_ids cn allow 1 sched recs = pp_ids_inproc cn allow recs.
+Proof. exact pp_ids_cpus1. Qed.
+Print Assumptions C18_preprocess_ids_cpus1.
+
+(* in-process result out, at least one worker: the run with workers returns out or never returns (no timeout is passed) *)
+Theorem C18_preprocess_ids_no_spurious_outcome : forall cn allow cfg sched recs out,
+  1 <= cfg -> pp_ids_inproc cn allow recs = Ok out ->
+  pp_ids cn allow cfg sched recs = Ok out \/ pp_ids cn allow cfg sched recs = Err E_Fuel.
+Proof. exact pp_ids_no_spurious_outcome. Qed.
+Print Assumptions C18_preprocess_ids_no_spurious_outcome.
+
+(* THE DESIGN REASON: the identifier parts of whatever comes back from the workers are exactly what the duplicate
+   pass and the fix_record_name_id loop computed IN THE PARENT over one set threaded through the records
+   (C16.Model.fix_all) - a term in which neither the worker count nor the schedule occurs *)
+Theorem C18_preprocess_ids_decided_in_parent : forall cn allow cfg sched recs out,
+  pp_ids cn allow cfg sched recs = Ok out ->
+  exists uniq set, C16.Model.dedup_pass (map fst (set_nindices 1 recs)) = Ok (uniq, set) /\
+                   C16.Model.fix_all cn allow uniq set = Ok (map fst out).
+Proof. exact pp_ids_decided_in_parent. Qed.
+Print Assumptions C18_preprocess_ids_decided_in_parent.
+
+(* hence the ids that come back are pairwise distinct for every worker count (C16's uniqueness carried across
+   the process boundary) *)
+Theorem C18_preprocess_ids_unique : forall cn allow cfg sched recs out,
+  pp_ids cn allow cfg sched recs = Ok out -> NoDup (nids out).
+Proof. exact pp_ids_unique. Qed.
+Print Assumptions C18_preprocess_ids_unique.
+
+(* the VARIANT with the bookkeeping inside the function shipped to the workers (every call on its own copy of the
+   id set) is false as a design: there are a batch, a worker count and a schedule for which it returns ids that
+   differ from its own in-process result and are not unique, while the code as it is returns the in-process
+   result.  Witness: ids scaf7|len1200 and scaf7:len1200, default options, two workers (the seeded defect C18-seed8) *)
+Theorem C18_preprocess_ids_per_call_copy_refuted :
+  exists allow cfg sched recs out1 out2,
+    pp_ids_per_call C16.Model.contig_no allow 1 [] recs = Ok out1 /\
+    pp_ids_per_call C16.Model.contig_no allow cfg sched recs = Ok out2 /\
+    nids out1 <> nids out2 /\ ~ NoDup (nids out2) /\
+    pp_ids C16.Model.contig_no allow cfg sched recs = Ok out1.
+Proof. exact per_call_copy_refuted. Qed.
+Print Assumptions C18_preprocess_ids_per_call_copy_refuted.
+
+(* ... and why no test with one worker can see it: with one configured worker the variant IS the in-process run of
+   the code, for every batch *)
+Theorem C18_preprocess_ids_per_call_copy_cpus1_hides : forall cn allow sched recs,
+  pp_ids_per_call cn allow 1 sched recs = pp_ids_inproc cn allow recs.
+Proof. exact per_call_cpus1_is_parent. Qed.
+Print Assumptions C18_preprocess_ids_per_call_copy_cpus1_hides.
+
+(* the decidable specification evaluated on the implementation's outputs (fn 14) means the property, and the
+   model meets it whenever the call returns *)
+Theorem C18_preprocess_ids_spec_ok_sound : forall cn allow recs l,
+  ids_spec_ok cn allow recs (Ok l) = true -> pp_ids_inproc cn allow recs = Ok l /\ NoDup (nids l).
+Proof. exact ids_spec_ok_sound. Qed.
+Print Assumptions C18_preprocess_ids_spec_ok_sound.
+
+Theorem C18_preprocess_ids_model_meets_spec : forall cn allow cfg sched recs,
+  pp_ids cn allow cfg sched recs <> Err E_Fuel \/ pp_ids_inproc cn allow recs = Err E_Fuel ->
+  1 <= cfg ->
+  ids_spec_ok cn allow recs (pp_ids cn allow cfg sched recs) = true.
+Proof. exact ids_model_meets_spec. Qed.
+Print Assumptions C18_preprocess_ids_model_meets_spec.
+
+(* the two witnesses spelled out.  Default options: the in-process run gives scaf7len1200 / scaf7len1200_0, the
+   variant with two workers scaf7len1200 twice; the code with two workers the in-process result *)
+Example C18_ex_ids_illegal_characters :
+  exists out1 out2,
+    pp_ids_per_call C16.Model.contig_no true 1 [] witness_chars = Ok out1 /\
+    pp_ids_per_call C16.Model.contig_no true 2 (sched_all 2) witness_chars = Ok out2 /\
+    nids out1 = [id_stripped; id_stripped_0] /\
+    nids out2 = [id_stripped; id_stripped] /\
+    pp_ids C16.Model.contig_no true 2 (sched_all 2) witness_chars = Ok out1.
+Proof. exact per_call_copy_witness. Qed.
+
+(* --no-allow-long-headers, ids short_one NZ_AMZN01000079.1 sample_contig12.assemblyA NZ_AMZN01000079.2
+   sample_contig12.assemblyB: in-process short_one NZ_AMZN01000079 c00012_sample_.. c00004_NZ_AMZN.. sample_conti_0;
+   the variant (one worker process of three running all five calls, each on its own copy)
+   short_one NZ_AMZN01000079 c00012_sample_.. NZ_AMZN01000079 c00012_sample_.. *)
+Example C18_ex_ids_versions_and_contigs :
+  exists out1 out2,
+    pp_ids_per_call C16.Model.contig_no false 1 [] witness_versions = Ok out1 /\
+    pp_ids_per_call C16.Model.contig_no false 3 (rounds 5) witness_versions = Ok out2 /\
+    nids out1 = ids_versions_inproc /\ nids out2 = ids_versions_copies /\
+    pp_ids C16.Model.contig_no false 3 (rounds 5) witness_versions = Ok out1.
+Proof. exact per_call_copy_witness_versions. Qed.
+
+(* the specification rejects the variant's output and accepts the code's *)
+Example C18_ex_ids_spec :
+  ids_spec_ok C16.Model.contig_no true witness_chars (pp_ids_per_call C16.Model.contig_no true 2 (sched_all 2) witness_chars) = false /\
+  ids_spec_ok C16.Model.contig_no true witness_chars (pp_ids C16.Model.contig_no true 2 (sched_all 2) witness_chars) = true.
+Proof. split; vm_compute; reflexivity. Qed.
